@@ -56,6 +56,15 @@ func pathCases(r *Rng, n int, cf *CoqFile, st *Stats) {
 			st.Note("paths-outside-domain", to, false)
 			continue
 		}
+		// domain of the model, second restriction: filepath.Rel FAILS when the directory of the
+		// importing chunk is above the output directory (it cleans to ".." or "../x": reachable with
+		// --entry-names=../[name]); pathBetweenChunks then logs "Cannot traverse from directory .. to
+		// chunk .." and the build fails without output (fixed witness in glueTargeted), so no
+		// reference is printed at all.  The model's rel has no error case; such pairs are skipped.
+		if _, ok := realFS.Rel(realFS.Dir(from), to); !ok {
+			st.Note("paths-rel-fails", from+"|"+to, false)
+			continue
+		}
 		public := []string{"", "", "", "https://cdn.example.com/base/", "/static", ".", "//h/p/"}[r.Intn(7)]
 		v := linker.VerifNewLinker(realFS, "/out", public, "PREFIXPREFIXPREF", nil, nil)
 		dir := realFS.Dir(from)
